@@ -45,6 +45,10 @@ Lemma F_C08_4a_refuted : mr_witness 41 "http://h/?q" "http://h/" = true.
 Proof. vm_compute. reflexivity. Qed.
 Lemma F_C08_4b_refuted : mr_witness 42 "a://h/" "a://h/x:y" = true /\ mr_witness 42 "http://h/d/f" "http://h/d/x:y/z" = true.
 Proof. vm_compute. split; reflexivity. Qed.
+(* a drive-letter-shaped FILE NAME of the target reads as a scheme (was counted in class 45 before that class was
+   narrowed to the segments '..' has to pop) *)
+Lemma F_C08_4b_drive_refuted : mr_witness 42 "non-spec:/" "non-spec:/c:" = true.
+Proof. vm_compute. reflexivity. Qed.
 Lemma F_C08_4c_refuted :
   mr_witness 43 "http://h/a/f" "http://h/a/" = true          (* the reference is "/" *)
   /\ mr_witness 43 "http://h/a//b/f" "http://h/a/f" = true   (* '..' emission stops at an empty segment *)
@@ -54,7 +58,17 @@ Proof. vm_compute. repeat split. Qed.
 Lemma F_C08_4e_refuted :
   mr_witness 45 "http://h/c:/a" "http://h/b" = true
   /\ mr_witness 45 "file:///c:/a/b" "file:///d:/x" = true
-  /\ mr_witness 45 "non-spec:/" "non-spec:/c:" = true.
+  /\ mr_witness 45 "non-spec:/c:/a" "non-spec:/b" = true
+  /\ mr_witness 45 "a://h/x/c|/f" "a://h/x/y" = true.
+Proof. vm_compute. repeat split. Qed.
+(* outside file URLs a drive-letter-shaped segment is harmless unless '..' has to pop it: in the common prefix,
+   in the target only, as the base's file name, as a target file name behind a directory *)
+Lemma MR_ok_drive_inhabited :
+  mr_holds "http://h/c:/a" "http://h/c:/b" "b" = true
+  /\ mr_holds "http://h/a/b" "http://h/c:/d" "../c:/d" = true
+  /\ mr_holds "a://h/a/c:" "a://h/a/x" "x" = true
+  /\ mr_holds "non-spec:/a/b" "non-spec:/a/d/c|" "d/c|" = true
+  /\ mr_holds "ws://h/c:/d:/e" "ws://h/c:/d:/e/f:" "e/f:" = true.
 Proof. vm_compute. repeat split. Qed.
 (* a dot segment in the target: only for hand-made records, the parser never stores one *)
 Definition t_dots : url := mkUrl (B "a:/../x") 1 2 2 2 HI_None None 2 None None.
